@@ -284,6 +284,7 @@ func checkC10(c *Ctx, r *Report) {
 
 	// ---------------- C10.e severities
 	checkC10Severities(c, r)
+	checkDiagnosticsCarrySeverity(c, r, "C10.e")
 
 	// ---------------- C10.f validation is a function of the project: no process-wide memo
 	ruleGlobalState(c, r, "C10.f", []string{"core/", "common", "gast", "graphs", "definitions"}, map[string]string{},
@@ -1087,4 +1088,54 @@ func checkDiagnosticsAppendOnly(c *Ctx, r *Report, clause string) {
 		viol = fmt.Sprintf("only %d assignments of EntityDiagnostic.Children/Diagnostics found (floor 4)", n)
 	}
 	r.add(clause, "whowrites", "EntityDiagnostic:append-only", "recorded diagnostics and child entities are never replaced or dropped", []string{"core/validators/diagnostics.EntityDiagnostic"}, sites, viol)
+}
+
+// checkDiagnosticsCarrySeverity: a diagnostic without a severity (the zero value) is neither an
+// error nor a warning: it does not block generation and is not shown as a warning either. Every
+// non-empty ResolvedDiagnostic literal sets Severity, from a parameter or a declared level.
+func checkDiagnosticsCarrySeverity(c *Ctx, r *Report, clause string) {
+	w := c.W
+	viol := ""
+	var sites []string
+	n := 0
+	for _, fi := range w.funcsOfPkgPrefixes("core", "cmd", "generator", "gast", "graphs", "definitions", "infrastructure") {
+		if fi.Decl.Body == nil {
+			continue
+		}
+		info := fi.Pkg.TypesInfo
+		ast.Inspect(fi.Decl.Body, func(nd ast.Node) bool {
+			cl, ok := nd.(*ast.CompositeLit)
+			if !ok || len(cl.Elts) == 0 {
+				return true
+			}
+			t := info.TypeOf(cl)
+			if t == nil || !strings.HasSuffix(types.TypeString(t, nil), "core/validators/diagnostics.ResolvedDiagnostic") {
+				return true
+			}
+			n++
+			sites = append(sites, w.pos(cl.Pos()))
+			has := false
+			for _, el := range cl.Elts {
+				kv, ok := el.(*ast.KeyValueExpr)
+				if !ok {
+					has = true // positional literal: every field is given
+					continue
+				}
+				if id, ok := kv.Key.(*ast.Ident); ok && id.Name == "Severity" {
+					has = true
+					if tv, ok := info.Types[kv.Value]; ok && tv.Value != nil && constString(tv.Value) == "0" {
+						has = false
+					}
+				}
+			}
+			if !has {
+				viol = fmt.Sprintf("%s: %s builds a ResolvedDiagnostic without a severity: it is classified as neither error nor warning, so the finding neither blocks generation nor shows up where its rule's documented level says", w.pos(cl.Pos()), fi.Key)
+			}
+			return true
+		})
+	}
+	if n < 1 {
+		viol = "no ResolvedDiagnostic literal found (rule would pass vacuously)"
+	}
+	r.add(clause, "fieldflow", "ResolvedDiagnostic:severity-always-set", "every diagnostic is built with a severity", []string{"core/validators/diagnostics.NewDiagnostic"}, sites, viol)
 }
